@@ -21,6 +21,11 @@ def gen_cases(tier, rng):
     yield from fanout.gen_histories(tier, rng, header_changes=True)
 
 
+def split_impl(c, out):
+    """popen= (relay-push sessions still open at the end) is observed on the implementation only"""
+    return "|".join(p for p in out.split("|") if not p.startswith(("hook=", "popen="))) or "-"
+
+
 def nontrivial(c, out):
     return c.line if ";J" in c.line.split(" ")[2].split("I", 1)[-1] else None
 
@@ -78,6 +83,8 @@ def _oracle(c, out):
         segs = obs.get(cid)
         if segs is None:
             return ("missing", "consumer %s missing" % cid)
+        if segs == [["!"]]:
+            continue
         if k == "t":
             r = check_ts(cfg, segs[0][1:] if segs[0][:1] == ["H"] else None, tsb, pats, joins[cid], leaves.get(cid, len(evs)), cid, spans)
             if r:
@@ -108,8 +115,17 @@ def gops_expected(cfg, msgs, k, upto, ep):
     if not enabled or num == 0:
         return []
     gops = []
+    hdr = {}
     for i, m in enumerate(msgs[:upto]):
-        if m["epoch"] != ep or len(m["p"]) == 0 or m["cls"] in ("meta", "vsh", "ash"):
+        if m["epoch"] != ep or len(m["p"]) == 0:
+            continue
+        if m["cls"] in ("vsh", "ash"):
+            # a sequence header with other content makes the cached GOPs undecodable: they are dropped
+            if m["cls"] in hdr and hdr[m["cls"]] != m["p"]:
+                gops = []
+            hdr[m["cls"]] = m["p"]
+            continue
+        if m["cls"] == "meta":
             continue
         if m["cls"] == "key":
             gops.append([i])
